@@ -17,12 +17,12 @@ class Subst(ast.NodeTransformer):
 
     def visit_Name(self, node):
         if isinstance(node.ctx, ast.Load) and node.id in self.env:
-            return copy.deepcopy(self.env[node.id])
+            return A.clone(self.env[node.id])
         return node
 
 
 def subst(expr, env):
-    return Subst(env).visit(copy.deepcopy(expr))
+    return Subst(env).visit(A.clone(expr))
 
 
 def registry_functions(ctx, registry):
